@@ -68,4 +68,80 @@ theorem C01_gen_readVolHeader_refuses : VolFile_ReadVolHeader_guards_translated 
     guard_norm
     omega
 
+/-! ## `ReadVolHeader` against the model function `Vol.openWith` -/
+theorem readTag_lt (file : Bytes) (p : Nat) (tag : Bytes) (n : Nat) (h : readTag file p tag = .ok n) : n < W32 := by
+  unfold readTag at h
+  split at h
+  · cases h
+  split at h
+  · cases h
+  split at h
+  · cases h
+  simp only [Except.ok.injEq] at h
+  have : decU32 (List.drop 4 ‹Bytes›) % padFlag < padFlag := Nat.mod_lt _ (by decide)
+  simp only [padFlag, W32] at *
+  omega
+
+/-- the model function performs the five tests: a file that `Vol.openWith` accepts passed them, on the section lengths the
+    model read with `readTag` -/
+theorem openWith_ok_tests (cfg : Cfg) (file : Bytes) (v : View) (h : openWith cfg file = .ok v) :
+    ∃ hl sl il p, readTag file 0 tagVOL = .ok hl ∧ readTag file 8 tagVOLH = .ok 0 ∧ readTag file 16 tagVOLS = .ok sl ∧
+      readTag file p tagVOLI = .ok il ∧
+      ¬ (file.length < secSize ∨ file.length < hl + secSize ∨ (0 : Nat) ≠ 0 ∨ hl < sl + secSize * 2 + 4 ∨ hl < u32 (sl + il + headerExtra)) := by
+  unfold openWith at h
+  split at h
+  · cases h
+  split at h
+  · cases h
+  rename_i hl e1
+  split at h
+  · cases h
+  split at h
+  · cases h
+  rename_i vh e2
+  split at h
+  · cases h
+  split at h
+  · cases h
+  rename_i sl e3
+  split at h
+  · cases h
+  split at h
+  · cases h
+  rename_i a e4
+  simp only at h
+  split at h
+  · cases h
+  split at h
+  · cases h
+  rename_i chars e5
+  split at h
+  · cases h
+  rename_i il e6
+  split at h
+  · cases h
+  rename_i entries e7
+  split at h
+  · cases h
+  have hv : vh = 0 := Decidable.of_not_not ‹¬vh ≠ 0›
+  subst hv
+  refine ⟨hl, sl, il, _, e1, e2, e3, e6, ?_⟩
+  rintro (g | g | g | g | g) <;> contradiction
+
+/-- tie to the model FUNCTION: whatever `Vol.openWith` accepts, the regenerated `ReadVolHeader` does not refuse (on the file
+    length and the section lengths the model read) — i.e. every regenerated guard is one the model applies -/
+theorem C01_gen_open_accepted_not_refused : VolFile_ReadVolHeader_guards_translated = true →
+    ∀ (cfg : Cfg) (file : Bytes) (v : View), file.length < 2 ^ 63 → openWith cfg file = .ok v →
+      ∃ hl sl il p, readTag file 0 tagVOL = .ok hl ∧ readTag file 8 tagVOLH = .ok 0 ∧ readTag file 16 tagVOLS = .ok sl ∧
+        readTag file p tagVOLI = .ok il ∧ VolFile_ReadVolHeader_refuses file.length hl 0 sl il = false := by
+  gen_guard_h ht =>
+    intro cfg file v hL h
+    obtain ⟨hl, sl, il, p, e1, e2, e3, e4, hn⟩ := openWith_ok_tests cfg file v h
+    refine ⟨hl, sl, il, p, e1, e2, e3, e4, ?_⟩
+    cases hr : VolFile_ReadVolHeader_refuses file.length hl 0 sl il with
+    | false => rfl
+    | true =>
+      exact absurd ((C01_gen_readVolHeader_refuses ht file.length hl 0 sl il hL (readTag_lt _ _ _ _ e1) (by decide)
+        (readTag_lt _ _ _ _ e3) (readTag_lt _ _ _ _ e4)).mp hr) hn
+
 end Op2.Props.C01Gen
